@@ -9,4 +9,12 @@ theorem cms_clear_eq (s : Cms.St) (h : s.w * s.d < 2 ^ 64) :
     cms_clear s.w s.d s.table.toList = Flow.cont (Cms.clear s).table.toList := by
   simp [cms_clear, Cms.clear, KOps.checkedMul, h]
 
+theorem decide_eq_beq' (a b : Nat) : decide (a = b) = (a == b) := by
+  by_cases h : a = b <;> simp [h]
+
+theorem cms_is_empty_eq (s : Cms.St) : cms_is_empty s.table.toList = Cms.isEmpty s := by
+  have h : (fun x : Nat => decide (x = 0)) = (fun x => x == 0) := by funext x; exact decide_eq_beq' x 0
+  unfold cms_is_empty Cms.isEmpty
+  rw [h, Array.all_toList]
+
 end Pds.KernelTie
